@@ -74,6 +74,17 @@ def ids_str(ids):
     return ",".join(map(str, ids)) if ids else "-"
 
 
+class _Runaway(BaseException):
+    """raised by the harness' implementations when one read has made more than TRACE_LIMIT invocations"""
+
+
+# Under the documented protocol one read on a chain of w wrappers and p plain implementations makes at most
+# (p + 1) * ((w + 1) * (w + 2) + p) invocations (each wrapper entered once, skipped once per later wrapper; every plain
+# implementation may create one further object), i.e. < 10^4 for the generated sizes.  Only code that applies wrappers
+# repeatedly (or a chain of wrappers that answer None, which the generator keeps short) gets near this limit.
+TRACE_LIMIT = 100000
+
+
 class Real:
     """Executes operation tuples on the real implementation and produces the model's answer lines."""
 
@@ -88,6 +99,7 @@ class Real:
         self.trace = []            # events of the current read: (kind, n, instance index, extra)
         self.insts = []            # instances of the current read (kept alive: identity = index)
         self.depth = 0
+        self.runaway = False
         self.lines = []            # model lines actually emitted
         self.answers = []          # (line index, answer, obs)
         self.seq = 0
@@ -100,6 +112,11 @@ class Real:
         self.insts.append(obj)
         return len(self.insts) - 1
 
+    def record(self, *ev):
+        self.trace.append(ev)
+        if len(self.trace) > TRACE_LIMIT:
+            raise _Runaway()
+
     def make_function(self, rid, body):
         R = self
         kind = body[0]
@@ -107,20 +124,20 @@ class Real:
             v = body[1]
 
             def plain(self):
-                R.trace.append(("call", rid, R.inst_index(self), None))
+                R.record("call", rid, R.inst_index(self), None)
                 return v
             return plain
         if kind == "del":
             c = body[1]
 
             def delegating(self):
-                R.trace.append(("call", rid, R.inst_index(self), None))
+                R.record("call", rid, R.inst_index(self), None)
                 if R.depth > 0:
                     return None
                 R.depth += 1
                 try:
                     inst = R.classes[c]()
-                    R.trace.append(("inst", c, R.inst_index(inst), None))
+                    R.record("inst", c, R.inst_index(inst), None)
                     try:
                         return inst.h
                     except AttributeError:
@@ -133,16 +150,16 @@ class Real:
 
             def wrapping(self, cycle):
                 if cycle:
-                    R.trace.append(("cyc", rid, R.inst_index(self), None))
+                    R.record("cyc", rid, R.inst_index(self), None)
                     return None
-                R.trace.append(("enter", rid, R.inst_index(self), None))
+                R.record("enter", rid, R.inst_index(self), None)
                 x = yield
-                R.trace.append(("exit", rid, R.inst_index(self), x))
+                R.record("exit", rid, R.inst_index(self), x)
                 return 10 * x + k if x is not None else d
             return wrapping
 
         def declining(self):
-            R.trace.append(("decl", rid, R.inst_index(self), None))
+            R.record("decl", rid, R.inst_index(self), None)
             return None
             yield  # noqa  (makes it a generator function: returns before its yield)
         return declining
@@ -287,17 +304,23 @@ class Real:
         self.trace = []
         self.insts = []
         self.depth = 0
+        self.runaway = False
         inst = self.classes[c]()
         self.insts.append(inst)
         try:
             v = inst.h
         except AttributeError:
             v = None
+        except _Runaway:
+            v = None
+            self.runaway = True
         return v, list(self.trace)
 
     def read_answer(self, c):
         v, tr = self.read(c)
         self.last_read = (v, tr)
+        if self.runaway:
+            return "runaway"
         return " ".join(["_" if v is None else str(v)] + [f"{k}{n}" for (k, n, _, _) in tr])
 
     def dump(self):
@@ -388,6 +411,11 @@ class Real:
         objs = []
         exp_v = self.expected_eval(c, 0, objs)
         probs = []
+        if self.runaway:
+            if all(o["ok"] for o in objs):
+                return [("wrapper-not-once", f"reading K{c}().h made more than {TRACE_LIMIT} invocations; the chain "
+                         f"{objs[0]['chain']} demands each wrapper once and each plain implementation at most once")]
+            return [("runaway-outside-protocol", "")]      # not a violation: see run_history
         if v != exp_v:
             probs.append(("value", f"K{c}().h = {v}, the registrations demand {exp_v} "
                           f"(chain {objs[0]['chain']})"))
@@ -454,6 +482,13 @@ def run_history(ops, with_oracle=True, sweep=True):
         if r is None:
             continue
         line, ans = r
+        if ans == "runaway":
+            # the read was aborted by the harness; under the protocol that is a violation, outside of it (wrappers
+            # answering None) nothing is demanded: the history ends here, without this op, on both sides
+            pr = real.check_read(op[1], None, []) if with_oracle else []
+            problems.extend((i, k, w) for (k, w) in pr if k != "runaway-outside-protocol")
+            stats["runaway"] = True
+            return {"rows": rows, "problems": problems, "stats": stats}
         obs_line, obs = real.dump()
         rows.append((i, line, ans, obs_line, obs))
         stats["ops"].append(op[0])
@@ -487,7 +522,8 @@ def run_history(ops, with_oracle=True, sweep=True):
                 problems.append((len(ops), key, what))
             v, tr = real.read(c)
             for key, what in real.check_read(c, v, tr):
-                problems.append((len(ops), key, "final sweep, " + what))
+                if key != "runaway-outside-protocol":
+                    problems.append((len(ops), key, "final sweep, " + what))
     return {"rows": rows, "problems": problems, "stats": stats}
 
 
@@ -737,6 +773,8 @@ def run(ctx):
         for name in res["stats"]["ops"]:
             ctx.count("op:" + name)
         ctx.count("chain-length:%d" % min(res["stats"]["maxchain"], 8))
+        if res["stats"].get("runaway"):
+            ctx.count("read:aborted-by-harness")
         for (_, line, ans, _, _) in res["rows"]:
             if ans == "AttributeError":
                 ctx.count("err:AttributeError")
